@@ -1052,6 +1052,24 @@ def inline_closure_calls(raw):
                 if '"def": "%s"' % h in s2:
                     still.add(h)
         raw['bodies'] = [b for b in raw['bodies'] if not (b['q'] in used and b['q'] not in still)]
+        # the closures that remain keep the numbers the audited tree gives them: `f::{closure#1}` is `f::{closure#0}`
+        # again once the closure in front of it has been dissolved
+        import re
+        gone = sorted(h for h in used if h not in still)
+        parents = set(h.rsplit('::', 1)[0] for h in gone if re.search(r'::\{closure#\d+\}$', h))
+        ren = []
+        for par in parents:
+            have = sorted((int(re.search(r'#(\d+)\}$', b['q']).group(1)), b['q']) for b in raw['bodies'] if b['q'].rsplit('::', 1)[0] == par and re.search(r'::\{closure#\d+\}$', b['q']))
+            for new_i, (old_i, q) in enumerate(have):
+                if new_i != old_i:
+                    ren.append((q, '%s::{closure#%d}' % (par, new_i)))
+        if ren:
+            text = json.dumps(raw['bodies'])
+            for oldq, newq in ren:        # ascending: the target number is always free by the time it is taken
+                for a, b2 in ((oldq, newq), (oldq.replace('raqote::', '', 1), newq.replace('raqote::', '', 1))):
+                    text = text.replace(json.dumps(a)[1:-1], json.dumps(b2)[1:-1])
+            raw['bodies'] = json.loads(text)
+            done.append('closures renumbered: %s' % ', '.join('%s -> %s' % (a.rsplit('::', 1)[-1], b2.rsplit('::', 1)[-1]) for a, b2 in ren))
     return done
 
 
@@ -1217,9 +1235,10 @@ def normalise_mem_ops(raw):
     descriptions."""
     done = []
     KINDS = {'std::option::Option::<T>::replace': 'opt_replace', 'std::option::Option::<T>::take': 'opt_take',
-             'std::mem::replace': 'replace', 'core::mem::replace': 'replace'}
+             'std::mem::replace': 'replace', 'core::mem::replace': 'replace',
+             'std::option::Option::<T>::get_or_insert': 'opt_goi', 'std::option::Option::<T>::get_or_insert_with': 'opt_goiw'}
     for b in raw['bodies']:
-        for blk in b['blocks']:
+        for blk in list(b['blocks']):
             t = blk['t']
             if t['k'] != 'call' or blk.get('cleanup') or t.get('t') is None:
                 continue
@@ -1240,6 +1259,31 @@ def normalise_mem_ops(raw):
             sp = t.get('sp')
             dest = t['dest']
             substs = fn.get('substs') or []
+            if kind in ('opt_goi', 'opt_goiw'):
+                # `x.get_or_insert(v)` / `x.get_or_insert_with(f)`: if x is None { x = Some(v / f()) }; &mut x.0
+                T = substs[0] if substs else '?'
+                optty = 'std::option::Option<%s>' % T
+                dl = len(b['locals']); b['locals'].append({'ty': 'isize'})
+                n0 = len(b['blocks'])
+                some_bb = {'st': [{'k': 'assign', 'p': copy.deepcopy(dest), 'rv': {'k': 'ref', 'mut': True, 'p': {'l': P['l'], 'pr': copy.deepcopy(P['pr']) + [{'k': 'downcast', 'v': 'Some', 'adt': 'std::option::Option'}, {'k': 'field', 'i': 0, 'n': '0', 'adt': 'std::option::Option', 'v': 'Some'}]}},
+                                    'ty': t.get('dest_ty', '&mut ' + T), 'sp': sp}], 't': {'k': 'goto', 't': t['t'], 'sp': sp}}
+                if kind == 'opt_goi':
+                    none_bbs = [{'st': [{'k': 'assign', 'p': copy.deepcopy(P), 'rv': {'k': 'agg', 'ak': 'adt', 'adt': 'std::option::Option', 'v': 'Some', 'fields': ['0'], 'substs': [T], 'ops': [copy.deepcopy(t['args'][1])]}, 'ty': optty, 'sp': sp}],
+                                 't': {'k': 'goto', 't': n0, 'sp': sp}}]
+                else:
+                    tup = len(b['locals']); b['locals'].append({'ty': '()'})
+                    tv = len(b['locals']); b['locals'].append({'ty': T})
+                    call = {'k': 'call', 'f': {'k': 'const', 'ty': 'FnOnce::call_once', 'fn': {'def': 'std::ops::FnOnce::call_once', 'path': 'std::ops::FnOnce::call_once', 'name': 'call_once', 'local': False, 'substs': [], 'subst_heads': [], 'res_kind': 'item'}},
+                            'args': [copy.deepcopy(t['args'][1]), {'k': 'move', 'p': {'l': tup, 'pr': []}}], 'arg_tys': [(t.get('arg_tys') or ['', ''])[1], '()'], 'dest_ty': T, 'dest': {'l': tv, 'pr': []}, 't': n0 + 2, 'sp': sp}
+                    none_bbs = [{'st': [{'k': 'assign', 'p': {'l': tup, 'pr': []}, 'rv': {'k': 'agg', 'ak': 'tuple', 'ops': []}, 'ty': '()', 'sp': sp}], 't': call},
+                                {'st': [{'k': 'assign', 'p': copy.deepcopy(P), 'rv': {'k': 'agg', 'ak': 'adt', 'adt': 'std::option::Option', 'v': 'Some', 'fields': ['0'], 'substs': [T], 'ops': [{'k': 'move', 'p': {'l': tv, 'pr': []}}]}, 'ty': optty, 'sp': sp}],
+                                 't': {'k': 'goto', 't': n0, 'sp': sp}}]
+                b['blocks'].append(some_bb)
+                b['blocks'].extend(none_bbs)
+                blk['st'].append({'k': 'assign', 'p': {'l': dl, 'pr': []}, 'rv': {'k': 'discr', 'adt': 'std::option::Option', 'p': copy.deepcopy(P)}, 'ty': 'isize', 'sp': sp})
+                blk['t'] = {'k': 'switch', 'o': {'k': 'move', 'p': {'l': dl, 'pr': []}}, 'ty': 'isize', 'targets': [['1', n0]], 'otherwise': n0 + 1, 'sp': sp}
+                done.append('%s in %s written as test + assignment' % (fn.get('def').split('::')[-1], b['q']))
+                continue
             if kind == 'opt_replace':
                 newv = {'k': 'agg', 'ak': 'adt', 'adt': 'std::option::Option', 'v': 'Some', 'fields': ['0'], 'substs': substs[:1], 'ops': [copy.deepcopy(t['args'][1])]}
             elif kind == 'opt_take':
